@@ -574,6 +574,10 @@ func c13OrderOnly(r *an.Run) {
 						r.Check(cmpOp && isLC(other), short(g)+"|position-use|"+x.Op.String(), x.Pos(), "a line/column number is used only in an order or equality comparison with another line/column number (found %s)", x.String())
 					default:
 						nUses++
+						// a three-way comparison with another line/column number is an order comparison too
+						if call, isCall := u.(*ssa.Call); isCall && an.IsCallTo(call, "cmp.Compare") && len(call.Call.Args) == 2 && isLC(call.Call.Args[0]) && isLC(call.Call.Args[1]) {
+							continue
+						}
 						r.Fail(short(g)+"|position-use|"+u.String(), u.Pos(), "a line/column number flows into %s: the pairing of elisions would depend on more than the relative order of positions", u.String())
 					}
 				}
@@ -586,7 +590,7 @@ func c13OrderOnly(r *an.Run) {
 	for _, g := range fns {
 		for _, c := range an.Calls(g) {
 			name := an.CalleeName(c)
-			if strings.HasPrefix(name, "sort.") || name == "fmt.Errorf" || name == "(*go/token.FileSet).Position" || strings.HasPrefix(name, "builtin:") || strings.HasPrefix(name, "closure:") || strings.HasPrefix(name, "dynamic:") {
+			if strings.HasPrefix(name, "sort.") || strings.HasPrefix(name, "slices.Sort") || name == "slices.BinarySearchFunc" || name == "cmp.Compare" || name == "fmt.Errorf" || name == "(*go/token.FileSet).Position" || strings.HasPrefix(name, "builtin:") || strings.HasPrefix(name, "closure:") || strings.HasPrefix(name, "dynamic:") {
 				continue
 			}
 			if sc := an.StaticCallee(c); sc != nil && inGroup[sc] {
